@@ -33,6 +33,7 @@ COMPONENTS = {"real": ["amaranth.build.res.ResourceManager", "amaranth.build.dsl
               "stub": ["pin-owner model", "constraint-file parsers", "no toolchain is executed (do_build=False)"]}
 EXPECTED_PROBES = ("refuse", "refuse_conflict_late", "refuse_duplicate", "refuse_unknown", "refuse_bad_dir", "refuse_bad_xdr",
                    "refuse_bad_xdr_late", "granted", "connector_chain", "diffpairs", "clock_constraints", "net_clock_constraints", "net_clock_crossing_modules", "cancelled_attribute",
+                   "oscillator_default_clock",
                    "resources_shared_with_other_revision", "built",
                    "legal_after_refusal")
 
@@ -121,6 +122,12 @@ def gen_case(seed, tier):
     if cands and cfg.random() < 0.4:
         # the platform requests this resource itself (create_missing_domain) when the design uses an undeclared `sync` domain
         config["default_clk"] = cfg.choice(cands)["name"]
+    if not config["default_clk"] and family in ("ice40", "gowin", "quicklogic") and cfg.random() < 0.2:
+        # the default clock comes from an on-chip oscillator: the platform builds the `sync` domain itself, no pin is involved
+        config["osc_clk"] = {"ice40": cfg.choice([["SB_HFOSC", cfg.randint(0, 3)], ["SB_LFOSC", 0]]),
+                             "gowin": cfg.choice([["GW1NR-LV9QN88PC6/I5", "GW1NR-9C", 25000000], ["GW1NZ-LV1QN48C6/I5", "GW1NZ-1", 25000000],
+                                                  ["GW1NS-LV2CQN48C6/I5", "GW1NS-2C", 24000000]]),
+                             "quicklogic": ["sys_clk0", cfg.choice([2, 12, 512])]}[family]
     ops = []
     nops = wl.randint(2, 12) if tier == "quick" else wl.randint(2, 25)
     for _ in range(nops):
@@ -194,11 +201,13 @@ def make_platform(config, shared_res=None, res_out=None):
             io_ = " ".join(c["pins"])
         con.append(Connector(c["name"], c["number"], io_, conn=tuple(c["conn"]) if c["conn"] else None))
     fam = config["family"]
+    osc = config.get("osc_clk")
     if fam == "ice40":
         class Plat(vendor.LatticeICE40Platform):
-            device = "iCE40HX8K"
-            package = "CT256"
-            default_clk = config.get("default_clk")
+            device = "iCE40UP5K" if osc else "iCE40HX8K"
+            package = "SG48" if osc else "CT256"
+            default_clk = osc[0] if osc else config.get("default_clk")
+            hfosc_div = osc[1] if osc else 0
             resources = res
             connectors = con
         return Plat(), ".pcf"
@@ -235,16 +244,17 @@ def make_platform(config, shared_res=None, res_out=None):
         class Plat(_no_verilog(vendor.QuicklogicPlatform)):
             device = "ql-eos-s3"
             package = "PU64"
-            osc_freq = 40_000_000
-            osc_div = 2
-            default_clk = config.get("default_clk")
+            osc_freq = 60_000_000
+            osc_div = osc[1] if osc else 2
+            default_clk = osc[0] if osc else config.get("default_clk")
             resources = res
             connectors = con
         return Plat(), ".pcf+sdc"
     class Plat(vendor.GowinPlatform):
-        part = "GW1NR-LV9QN88PC6/I5"
-        family = "GW1NR-9C"
-        default_clk = config.get("default_clk")
+        part = osc[0] if osc else "GW1NR-LV9QN88PC6/I5"
+        family = osc[1] if osc else "GW1NR-9C"
+        osc_frequency = osc[2] if osc else 25000000
+        default_clk = "OSC" if osc else config.get("default_clk")
         resources = res
         connectors = con
     return Plat(toolchain="Apicula"), ".cst"
@@ -549,6 +559,12 @@ def run_history(config, ops, use_frac, use_seed, stats=None, record=None, net_cl
             if is_used:
                 used.append(pname)
     build_should_fail = None
+    if config.get("osc_clk"):
+        cnt = Signal(4, name="cnt")
+        m.d.sync += cnt.eq(cnt + 1)
+        sink.append(cnt)
+        if stats is not None:
+            stats["probes"]["oscillator_default_clock"] = stats["probes"].get("oscillator_default_clock", 0) + 1
     if config.get("default_clk"):
         cnt = Signal(4, name="cnt")
         m.d.sync += cnt.eq(cnt + 1)
@@ -629,7 +645,16 @@ def run_history(config, ops, use_frac, use_seed, stats=None, record=None, net_cl
                 return outcomes + ["build:ResourceError"], "", []
             raise Violation("illegal_request_granted", len(ops), {"op": "platform default_clk request at build",
                                                                   "expected_refusal": build_should_fail})
-        plan = plat.build(m, do_build=False)
+        try:
+            plan = plat.build(m, do_build=False)
+        except Exception as e:
+            import traceback as _tb
+            where = _tb.extract_tb(e.__traceback__)[-1].filename.split("amaranth/")[-1]
+            if config.get("osc_clk") and not (where.startswith("vendor/") or where.startswith("build/")):
+                # the platform's own clock source could not be built: not a refusal by the platform code, a crash below it
+                raise Violation("platform_clock_source_crash", -1, {"osc": config["osc_clk"], "raised": type(e).__name__,
+                                                                    "where": where, "msg": str(e)[:200]})
+            raise
     text = next((v for k, v in plan.files.items() if k.endswith(ext.split("+")[0])), None)
     if text is None:
         raise Violation("no_constraint_file", -1, {"files": sorted(plan.files)})
@@ -659,7 +684,7 @@ def run_history(config, ops, use_frac, use_seed, stats=None, record=None, net_cl
         if pin in pins_seen:
             raise Violation("pin_bound_twice", -1, {"pin": pin, "ports": [pins_seen[pin], name]})
         pins_seen[pin] = name
-    if ext not in (".cst", ".xdc"):          # (the Apicula and X-Ray templates carry no clock constraints)
+    if ext not in (".cst", ".xdc") and not config.get("osc_clk"):   # (the Apicula and X-Ray templates carry no clock constraints)
         cseen = {}
         for name, hz in freqs:
             if name in cseen:
